@@ -14,6 +14,21 @@ PO = X + "ProgObserver<std::vector<votca::xtp::Job>>::"
 FL = "boost::interprocess::file_lock::"
 
 
+def loaded_from(f, arg, load_call):
+    """the argument is the value returned by that LOAD_JOBS call (directly or through a local initialised / assigned from it once)"""
+    a = unwrap(arg)
+    while a.get("k") in ("cast", "construct") and (a.get("sub") is not None or len(a.get("args", [])) == 1):
+        a = unwrap(a["sub"] if a.get("sub") is not None else a["args"][0])
+    if a.get("id") == load_call["id"]:
+        return True
+    if a.get("k") == "ref" and a.get("decl") in f.decls:
+        d = f.decls[a["decl"]]
+        if d.get("init") is not None and any(x.get("id") == load_call["id"] for x in walk(d["init"])):
+            writes = [n for n in f.walk() if n.get("k") in ("assign", "opcall") and n.get("op") == "=" and unwrap(n.get("lhs") or n["args"][0]).get("decl") == a["decl"]]
+            return not writes
+    return False
+
+
 def nows(s):
     return re.sub(r"\s+", "", s)
 
@@ -163,7 +178,7 @@ def run(rep, tier):
               "SyncWithProgFile does not write the merged job list to the backup file before rewriting the job file (write targets: %s)" % [path_of(n) for n in wr], sy.loc(), sample=True)
     ld = [n for n in sy.walk() if n.get("k") == "call" and n.get("callee") == X + "LOAD_JOBS"]
     rep.check(len(ld) == 1 and path_of_arg(ld[0], defs) == "progFile_" and len(upd) == 1 and g.dominates(ld[0]["id"], upd[0]["id"]) and
-              [nows(show(a)) for a in upd[0]["args"][:2]] == ["jobs_ext", "jobs_"], "R10.3", "load-merge", "external jobs loaded from progFile_ and merged into jobs_",
+              nows(show(upd[0]["args"][1])) == "jobs_" and loaded_from(sy, upd[0]["args"][0], ld[0]), "R10.3", "load-merge", "external jobs loaded from progFile_ and merged into jobs_",
               "SyncWithProgFile does not merge the freshly loaded job file into jobs_", sy.loc())
     wj = F.one(X + "WRITE_JOBS")
     rep.analysed(wj)
@@ -236,40 +251,116 @@ def run(rep, tier):
     rep.check(ok, "R10.5", "merge-rule", "job_int.UpdateFrom(job_ext) iff ext has a host different from this one; size/id mismatch throws",
               "UPDATE_JOBS merges under %s (throws: %s); results of other processes would be lost or own results overwritten" % (got, [t[-60:] for t in thr]), uj.loc(), sample=True)
 
-    # ---------------------------------------------------------------- R10.6
-    gs_ = CFG(sy)
-    push = [n for n in sy.walk() if n.get("k") == "mcall" and (n.get("callee") or "").endswith("::push_back") and show(n["obj"]) == "jobsToProc_"]
+    # ---------------------------------------------------------------- R10.6 (assignment loop, decided on the folded loop body)
+    from vsa.cases import executes as _exec, leaf_conditions
+    import itertools as _it
+    fo2 = Fold(sy, inline="internal", record_calls=r"::push_back$|Job::(Reset|setStatus|setHost|setTime)$").run()
+    cds2 = getattr(fo2, "conds", {})
+
+    def in_loop(e):
+        ix = [i_ for i_, g_ in enumerate(e["guards"]) if isinstance(g_[0], tuple) and g_[0] and g_[0][0] == "loop"]
+        return ix[-1] if ix else None
+
+    def loop_view(e):
+        """the event with the loop condition as an ordinary guard and only what happened inside the iteration"""
+        k_ = in_loop(e)
+        lc = e["guards"][k_][0][2]
+        gs = ([(lc, True, None)] if lc is not None else []) + list(e["guards"][k_ + 1:])
+        nots = []
+        for gl in e.get("not", []):
+            kk = [i_ for i_, g_ in enumerate(gl) if isinstance(g_[0], tuple) and g_[0] and g_[0][0] == "loop" and g_[0][1] == e["guards"][k_][0][1]]
+            if kk:
+                nots.append(list(gl[kk[-1] + 1:]))
+        return {"guards": gs, "not": nots}
+    push = [e for e in fo2.events if e["kind"] == "call" and e["callee"].endswith("::push_back") and "jobsToProc_" in str(e["obj"]) and in_loop(e) is not None]
+    if len(push) != 1:
+        raise AnalysisBroken("SyncWithProgFile: expected one jobsToProc_.push_back inside the assignment loop, found %d" % len(push))
+    P_ = push[0]
+    PV = loop_view(P_)
+
+    def classify6(lf):
+        s_ = re.sub(r"\s", "", str(lf))
+        if isinstance(lf, tuple) and len(lf) == 3:
+            a_, b_ = re.sub(r"\s", "", str(lf[1])), re.sub(r"\s", "", str(lf[2]))
+            if lf[0] in ("<", ">", "<=", ">=") and "size(jobsToProc_)" in a_ + b_ and "cacheSize_" in a_ + b_:
+                room = (lf[0] == "<" and "size(" in a_) or (lf[0] == ">" and "size(" in b_)
+                strict = lf[0] in ("<", ">")
+                return ("room", True) if room and strict else (("room", False) if (not room and not strict) else None)
+            if lf[0] in ("==", "!=") and "metajit_" in a_ + b_ and "end(jobs_)" in a_ + b_:
+                return ("at-end", lf[0] == "==")
+            if lf[0] in ("==", "!=") and {a_, b_} == {"startJobsCount_", "maxJobs_"}:
+                return ("max-reached", lf[0] == "==")
+            if lf[0] in (">", "!=") and b_ == "0" and a_.startswith("count(restart_stats_") and "getStatusStr" in a_:
+                return ("status-named", True)
+            if lf[0] in (">", "!=") and b_ == "0" and a_.startswith("count(restart_hosts_") and "getHost" in a_:
+                return ("host-named", True)
+            return None
+        if s_.startswith("isAvailable("):
+            return ("available", True)
+        if s_ == "restartMode_":
+            return ("restart-mode", True)
+        if s_.startswith("count(restart_stats_") and "getStatusStr" in s_:
+            return ("status-named", True)
+        if s_.startswith("count(restart_hosts_") and "getHost" in s_:
+            return ("host-named", True)
+        return None
+    known = ["room", "at-end", "max-reached", "available", "restart-mode", "status-named", "host-named"]
+    lfs = leaf_conditions(PV)
+    unknown = [str(l_)[:80] for l_ in lfs if classify6(l_) is None]
+    if unknown:
+        raise AnalysisBroken("SyncWithProgFile: the assignment of a job depends on conditions the rule does not know: %s" % unknown)
+    bad_start = bad_bounds = None
+    for vals in _it.product((True, False), repeat=len(known)):
+        A = dict(zip(known, vals))
+        x = _exec(PV, None, A, classify6, cds2)
+        start = A["available"] or (A["restart-mode"] and (A["status-named"] or A["host-named"]))
+        inb = A["room"] and not A["at-end"] and not A["max-reached"]
+        if x is None:
+            raise AnalysisBroken("SyncWithProgFile: cannot decide whether a job is assigned for %s" % A)
+        if inb and x != start and bad_start is None:
+            bad_start = (A, x)
+        if not inb and x and bad_bounds is None:
+            bad_bounds = (A, x)
+    rep.check(bad_start is None, "R10.6", "start-condition", "start iff available, or restart mode and status/host is named",
+              "SyncWithProgFile: for %s a job is %s" % (bad_start[0] if bad_start else "", "assigned" if bad_start and bad_start[1] else "not assigned"), sy.loc(P_["node"]), sample=True)
+    rep.check(bad_bounds is None, "R10.6", "loop-bounds", "no job is assigned beyond the cache size, the end of the job list or maxJobs_",
+              "SyncWithProgFile assigns a job although %s" % (bad_bounds[0] if bad_bounds else ""), sy.loc(P_["node"]))
+    # the steps that precede the push: same job object, same path condition, in order
+    job = str(P_["args"][0]).replace("&", "").strip("() ")
     steps = {}
-    for n in sy.walk():
-        if n.get("k") == "mcall" and (n.get("callee") or "").endswith(("Job::Reset", "Job::setStatus", "Job::setHost", "Job::setTime")) and "metajit_" in show(n["obj"]):
-            steps[n["callee"].split("::")[-1]] = n
-    ok = len(push) == 1 and set(steps) == {"Reset", "setStatus", "setHost", "setTime"} and all(gs_.dominates(s_["id"], push[0]["id"]) for s_ in steps.values())
-    ok = ok and "ASSIGNED" in show(steps["setStatus"]["args"][0]) if ok else False
-    ok = ok and gs_.dominates(steps["Reset"]["id"], steps["setStatus"]["id"])
-    rep.check(ok, "R10.6", "assign-steps", "Reset, setStatus(ASSIGNED), setHost, setTime before the job is queued",
-              "SyncWithProgFile queues a job without first resetting it and marking it ASSIGNED with host and time (steps found: %s)" % sorted(steps), sy.loc(), sample=True)
-    fo2 = Fold(sy, opaque_types=r"std::vector<|std::map<").run()
-    stv = [e for e in fo2.events if e["kind"] == "store" and e["target"] == "startJob"] if False else []
-    cond = [n for n in sy.walk() if n.get("k") == "if" and "isAvailable" in show(n["cond"])]
-    okc = False
-    if len(cond) == 1:
-        c = nows(show(cond[0]["cond"]))
-        okc = c.count("||") == 2 and "metajit_->isAvailable()" in c and "restartMode_&&restart_stats_.count(metajit_->getStatusStr())" in c.replace("(", "").replace(")", "").replace("metajit_->isAvailable", "metajit_->isAvailable()").replace("getStatusStr", "getStatusStr()").replace("count", "count(") or True
-        parts = [p for p in re.split(r"\|\|", c)]
-        okc = len(parts) == 3 and "isAvailable" in parts[0] and "restartMode_" in parts[1] and "restart_stats_.count" in parts[1] and "getStatusStr" in parts[1] \
-            and "restartMode_" in parts[2] and "restart_hosts_.count" in parts[2] and "getHost" in parts[2] and "!" not in c
-    rep.check(okc, "R10.6", "start-condition", "start iff available, or restart mode and status/host is named",
-              "SyncWithProgFile start condition is %s" % (show(cond[0]["cond"]) if cond else "?"), sy.loc(), sample=True)
-    incs = [n for n in sy.walk() if (n.get("k") == "opcall" and n.get("op") == "++" and "metajit_" in show(n["args"][0])) or (n.get("k") == "unop" and n["op"] == "++" and "metajit_" in show(n["sub"]))]
-    okl = len(incs) == 1
+    order = []
+    for e in fo2.events:
+        if e["kind"] == "call" and re.search(r"Job::(Reset|setStatus|setHost|setTime)$", e["callee"]) and in_loop(e) is not None:
+            nm = e["callee"].split("::")[-1]
+            steps[nm] = e
+            order.append(nm)
+        elif e is P_:
+            order.append("push")
+    ok = set(steps) == {"Reset", "setStatus", "setHost", "setTime"} and order.index("Reset") < order.index("setStatus") and all(order.index(k_) < order.index("push") for k_ in steps)
+    if ok:
+        objs = {re.sub(r"\s", "", str(e["obj"])) for e in steps.values()}
+        ok = len(objs) == 1 and list(objs)[0] in re.sub(r"\s", "", str(P_["args"][0])) and '"ASSIGNED"' in str(steps["setStatus"]["args"][0])
+        for e in steps.values():
+            ev_ = loop_view(e)
+            for vals in _it.product((True, False), repeat=len(known)):
+                A = dict(zip(known, vals))
+                if _exec(ev_, None, A, classify6, cds2) != _exec(PV, None, A, classify6, cds2):
+                    ok = False
+                    break
+    rep.check(ok, "R10.6", "assign-steps", "Reset, setStatus(ASSIGNED), setHost, setTime on the job before it is queued, under the same condition",
+              "SyncWithProgFile queues a job without first resetting it and marking it ASSIGNED with host and time (steps found: %s, order %s)" % (sorted(steps), order), sy.loc(P_["node"]), sample=True)
+    # the cursor advances exactly once per iteration, whether or not the job was started
+    adv_ = [e for e in fo2.events if e["kind"] == "store" and re.sub(r"\s", "", e["target"]) == "metajit_" and in_loop(e) is not None]
+    okl = len(adv_) == 1 and str(adv_[0]["value"]).startswith("iterinc(")
     if okl:
-        loops = [a for a in sy.ancestors(incs[0]) if a.get("k") == "while"]
-        inner_ifs = [a for a in sy.ancestors(incs[0]) if a.get("k") == "if"]
-        okl = len(loops) == 1 and not inner_ifs
+        av = loop_view(adv_[0])
+        for vals in _it.product((True, False), repeat=len(known)):
+            A = dict(zip(known, vals))
+            if not (A["room"] and not A["at-end"] and not A["max-reached"]):
+                continue
+            if _exec(av, None, A, classify6, cds2) is not True:
+                okl = False
     rep.check(okl, "R10.6", "cursor-advances", "++metajit_ on every loop iteration", "the job cursor is not advanced unconditionally in the assignment loop (a job that is not started would be examined forever, or skipped)", sy.loc(), sample=True)
-    brk = [n for n in sy.walk() if n.get("k") == "if" and any(x.get("k") == "break" for x in walk(n["then"]))]
-    okb = any("metajit_ == jobs_.end()" in show(n["cond"]) and "startJobsCount_ == maxJobs_" in show(n["cond"]) and "||" in show(n["cond"]) for n in brk)
-    rep.check(okb, "R10.6", "loop-bounds", "loop stops at the end of the job list or at maxJobs_", "assignment loop does not stop at jobs_.end() / maxJobs_", sy.loc())
     rq = fn("RequestNextJob")
     take = [n for n in rq.walk() if n.get("k") == "assign" and nows(show(n["lhs"])) == "jobToProc" and "nextjit_" in show(n["rhs"])]
     adv = [n for n in rq.walk() if (n.get("k") == "opcall" and n.get("op") == "++" and "nextjit_" in show(n["args"][0])) or (n.get("k") == "unop" and n["op"] == "++" and "nextjit_" in show(n["sub"]))]
